@@ -11,9 +11,9 @@ STD_TRUST = [
 
 PROPS = {
     "C20": dict(
-        units=["num"],
+        units=["val"],
         level="proof",
-        min_obligations=10,
+        min_obligations=150,
         replay_family="c20",
         explanation="Every accessor, predicate, From conversion and comparison helper of number.rs, value/mod.rs, value/from.rs and "
                     "value/partial_eq.rs is extracted from /repo and verified by Verus against postconditions transcribed from the property "
